@@ -1723,6 +1723,8 @@ struct Engine
             return x.a;
         else if constexpr (std::is_same_v<T, W8>)
             return x.v;
+        else if constexpr (std::is_same_v<T, Asg> || std::is_same_v<T, Cpy>)
+            return x.val;
         else
             return static_cast<long>(x);
     }
